@@ -49,6 +49,8 @@ struct vp_mu_ghost {
 	int enq_long;    /* last enqueue transition carried MU_LONG_WAIT */
 	uint32_t enq_count;   /* number of enqueue transitions made */
 	int no_wakeup_ctx; /* C06: the release in progress is nsync_mu_unlock_without_wakeup (may leave MU_ALL_FALSE set) */
+	int h4_check;    /* C02 H4 is checked at spinlock releases (set by the unlock_slow harness) */
+	int released_with_desig; /* C02 H1: this thread's releasing step left the MU_DESIG_WAKER it had set */
 	int observer;    /* C16: this thread is a pure observer (debug): must not change anything but the spinlock bit */
 	uint32_t last_new; /* last value this thread wrote */
 	int last_cond;     /* result of the most recent condition evaluation by this thread */
